@@ -34,7 +34,38 @@ def _per_molecule_force(molecule, *a, **kw):
     molecule.Etot = st.tensor([Sym(E.uf("E_%d" % m, tuple(v.n for v in x.a[m].reshape(-1)), E.R)) for m in range(x.a.shape[0])])
 
 
+def replay_onestep(model):
+    """real onestep on water alone and on the batch [water, H2 squeezed to 0.5 A + padding] (alpha = 2e-2): water's new
+    coordinates must be x + alpha*F(x) in both and identical in both."""
+    import torch
+    from seqm.seqm_functions.constants import Constants
+    from seqm.Molecule import Molecule
+    from seqm.MolecularDynamics import Geometry_Optimization_SD
+
+    torch.set_default_dtype(torch.float64)
+    params = {"method": "AM1", "scf_eps": 1e-9, "scf_converger": [1], "sp2": [False, 1e-5], "elements": [0, 1, 8], "learned": [], "pair_outer_cutoff": 1e10, "eig": True}
+    water = [[0.0, 0, 0], [0.99, 0.02, 0], [-0.27, 0.95, 0.03]]
+    alpha = 2e-2
+
+    def run(species, coords):
+        mol = Molecule(Constants(), params, torch.tensor(coords), torch.tensor(species))
+        x0 = mol.coordinates.detach().clone()
+        sd = Geometry_Optimization_SD(params, alpha=alpha, force_tol=1e-12, max_evl=3)
+        f, _ = sd.onestep(mol)
+        return x0, f.detach().clone(), mol.coordinates.detach().clone()
+
+    xa, fa, xa1 = run([[8, 1, 1]], [water])
+    xb, fb, xb1 = run([[8, 1, 1], [1, 1, 0]], [water, [[0.0, 0, 0], [0.5, 0, 0], [0, 0, 0]]])
+    rule = max(float((xa1 - xa - alpha * fa).abs().max()), float((xb1 - xb - alpha * fb).abs().max()))
+    indep = float((xa1[0] - xb1[0]).abs().max())
+    pad = float((xb1[1, 2] - xb[1, 2]).abs().max())
+    return {"reproduced": bool(rule > 1e-9 or indep > 1e-7 or pad > 0), "input": "AM1 water alone vs batch [water, H2 at 0.5 A + padding], alpha 2e-2",
+            "max|x' - x - alpha F|": rule, "max|water' alone - water' in batch|": indep, "padding displacement": pad, "max|F| of the squeezed H2 (eV/A)": float(fb[1].abs().max())}
+
+
 def task_onestep(ctx):
+    from contracts.C07_differentiability import _quiet
+
     ctx.under_contract(SD + ".onestep", stubs=["esdriver"])
 
     def thunk():
@@ -59,7 +90,8 @@ def task_onestep(ctx):
         mol, x0, F0, E0, f, e, calls = p.value
         alpha = real("alpha")
         for pos in np.ndindex(*x0.a.shape):
-            ctx.prove_eq("x'=x+alpha*F(x)%s" % (list(pos),), mol.coordinates.a[pos], x0.a[pos] + alpha * F0.a[pos], pc=p.pc)
+            ctx.prove_eq("x'=x+alpha*F(x)%s" % (list(pos),), mol.coordinates.a[pos], x0.a[pos] + alpha * F0.a[pos], pc=p.pc, replay=lambda m_: _quiet(replay_onestep),
+                         classify=lambda m_, r: "step-rule")
             ctx.prove_eq("returned-force-is-F(x)%s" % (list(pos),), f.a[pos], F0.a[pos], pc=p.pc)
         for c in range(3):
             ctx.prove_eq("padding-slot-does-not-move[%d]" % c, mol.coordinates.a[0, 2, c], x0.a[0, 2, c], pc=p.pc)
@@ -75,7 +107,7 @@ def task_onestep(ctx):
                     names |= P.free_atoms(P.to_poly(mol.coordinates.a[m, i, c].n))
             foreign = [n for n in names if n.startswith("x_%d_" % (1 - m))]
             if foreign:
-                ctx.fail("path-of-molecule-%d-independent-of-batch-mates" % m, "depends on %r" % foreign[:4])
+                ctx.fail("path-of-molecule-%d-independent-of-batch-mates" % m, "depends on %r" % foreign[:4], replay=_quiet(replay_onestep), witness_class="batch-coupling")
             else:
                 ctx.ok("path-of-molecule-%d-independent-of-batch-mates" % m, "free-symbol-containment")
         ctx.prove("one-evaluation-per-step", E.const(len(calls) == 1))
